@@ -417,34 +417,47 @@ def r3(ctx, chk):
             return not env.get(a[1], False)
         return env.get(a, False)
 
-    def run(stmts, env, period):
+    # the locals the period passes through (`p2 = period` ... `period = p2` around a written-out helper)
+    family = {pname}
+    for _ in range(4):
+        for n in iter_own_nodes(pf.node):
+            if isinstance(n, ast.Assign) and len(n.targets) == 1 and isinstance(n.targets[0], ast.Name) and isinstance(n.value, ast.Name) \
+                    and (n.targets[0].id in family or n.value.id in family):
+                family |= {n.targets[0].id, n.value.id}
+
+    def run(stmts, env, vals):
         for st in stmts:
             if isinstance(st, ast.If):
                 try:
                     c = ev(st.test, env)
                 except _Unknown:
                     # a test about something else (e.g. the year): the period must not be assigned under it
-                    if any(isinstance(x, ast.Assign) and ast.unparse(x.targets[0]) == pname for x in ast.walk(st)):
+                    if any(isinstance(x, ast.Assign) and ast.unparse(x.targets[0]) in family for x in ast.walk(st)):
                         raise
                     continue
-                period = run(st.body if c else st.orelse, env, period)
-            elif isinstance(st, ast.Assign) and ast.unparse(st.targets[0]) == pname:
-                if not isinstance(st.value, ast.Constant):
+                vals = run(st.body if c else st.orelse, env, vals)
+            elif isinstance(st, ast.Assign) and ast.unparse(st.targets[0]) in family:
+                if isinstance(st.value, ast.Constant):
+                    vals = dict(vals, **{st.targets[0].id: st.value.value})
+                elif isinstance(st.value, ast.Name) and st.value.id in family:
+                    vals = dict(vals, **{st.targets[0].id: vals.get(st.value.id, "<initial>")})
+                else:
                     raise _Unknown(ast.unparse(st)[:40])
-                period = st.value.value
+            elif isinstance(st, ast.Assign) and any(isinstance(x, ast.Name) and x.id in family for t_ in st.targets for x in ast.walk(t_)):
+                raise _Unknown(ast.unparse(st)[:40])
             elif isinstance(st, ast.Try):
-                period = run(st.body, env, period)
-                period = run(st.orelse, env, period)          # the no-exception continuation
-                period = run(st.finalbody, env, period)
+                vals = run(st.body, env, vals)
+                vals = run(st.orelse, env, vals)          # the no-exception continuation
+                vals = run(st.finalbody, env, vals)
             elif isinstance(st, ast.With):
-                period = run(st.body, env, period)
-        return period
+                vals = run(st.body, env, vals)
+        return vals
     want = {(True, True): "year", (True, False): "year", (False, True): "month", (False, False): "<initial>"}
     got = {}
     try:
         for mm in (True, False):
             for md in (True, False):
-                got[(mm, md)] = run(loops[0].body, {"month": mm, "day": md, "year": False}, "<initial>")
+                got[(mm, md)] = run(loops[0].body, {"month": mm, "day": md, "year": False}, {}).get(pname, "<initial>")
     except _Unknown as e_:
         chk.error(rule, "parse_with_formats: the period is decided by something this rule cannot evaluate (%s)" % e_)
         return
